@@ -132,6 +132,21 @@ def run(ctx, repo, tier):
     # ------------------------------------------------------------------ len and index helpers
     ln = interp.call_value(interp.getattr(fg, "__len__"), [], {}, None, None)
     ctx.instance("LAYOUT")
+    # the same length in the Cartesian position mode (the tessellation there is built on an EXTENDED point set: one auxiliary shell)
+    try:
+        hooks_c = GeoHooks(repo, n_b, n_o, n_t, bounds={"n_b": 4, "n_o": 4, "n_t": 2}, b_alg="cube4D", o_alg="ico")
+        interp_c = Interp(repo, hooks_c, max_depth=20)
+        fg_c = build_fullgrid(repo, interp_c, Const("b"), Const("o"), Const("t"), cartesian=True)
+        ln_c = interp_c.call_value(interp_c.getattr(fg_c, "__len__"), [], {}, None, None)
+    except AnalysisError as e_:
+        ln_c = Top(str(e_))
+    ctx.instance("LAYOUT")
+    if isinstance(ln_c, Num) and not ln_c.p.has_top():
+        ctx.check(ln_c.p == N, "LAYOUT", "C09.len.cartesian", "len(full grid) = n_b*n_o*n_t in the Cartesian position mode as well (auxiliary "
+                  "outer shell of the tessellation not counted)", "molgri/space/fullgrid.py:PositionGrid.__len__", witness=f"derived {ln_c.p.pretty()}")
+    else:
+        ctx.inconclusive("LAYOUT", "C09.len.cartesian", "length in the Cartesian position mode not derived", "molgri/space/fullgrid.py:PositionGrid.__len__",
+                         witness=contains_top(ln_c) or vstr(ln_c)[:200])
     ctx.check(isinstance(ln, Num) and ln.p == N, "LAYOUT", "C09.len", "len(full grid) = n_b*n_o*n_t", "molgri/space/fullgrid.py:FullGrid.__len__",
               witness=vstr(ln))
     m = Poly.sym("m")
